@@ -50,7 +50,7 @@ def ListOfDicts_filter (truth : Term → Bool) : Out :=
   else
     if truth (Term.sym "key_value_pairs") then
       let extract' : Term := (Term.app "operator.itemgetter" [(Term.app "*" [(Term.app ".keys" [(Term.sym "key_value_pairs")])])]);
-      let values' : Term := (Term.app "tuple" [(Term.app ".values" [(Term.sym "key_value_pairs")])]);
+      let values' : Term := (Term.app "tuple()" [(Term.app ".values" [(Term.sym "key_value_pairs")])]);
       let values' : Term := (if truth (Term.app "Eq" [(Term.app "len" [values']), (Term.int (1 : Int))]) then (Term.app "getitem" [values', (Term.int (0 : Int))]) else values');
       let eff0 : Term := (Term.app "for" [(Term.sym "item"), (Term.sym "self"), (Term.app "block" [(Term.app "if" [(Term.app "Eq" [(Term.app "call" [extract', (Term.sym "item")]), values']), (Term.app "block" [(Term.app "yield" [(Term.sym "item")])]), (Term.app "block" [])])])]);
       Out.fall [eff0]
@@ -71,7 +71,7 @@ def ListOfDicts_filter_out (truth : Term → Bool) : Out :=
   else
     if truth (Term.sym "key_value_pairs") then
       let extract' : Term := (Term.app "operator.itemgetter" [(Term.app "*" [(Term.app ".keys" [(Term.sym "key_value_pairs")])])]);
-      let values' : Term := (Term.app "tuple" [(Term.app ".values" [(Term.sym "key_value_pairs")])]);
+      let values' : Term := (Term.app "tuple()" [(Term.app ".values" [(Term.sym "key_value_pairs")])]);
       let values' : Term := (if truth (Term.app "Eq" [(Term.app "len" [values']), (Term.int (1 : Int))]) then (Term.app "getitem" [values', (Term.int (0 : Int))]) else values');
       let eff0 : Term := (Term.app "for" [(Term.sym "item"), (Term.sym "self"), (Term.app "block" [(Term.app "if" [(Term.app "NotEq" [(Term.app "call" [extract', (Term.sym "item")]), values']), (Term.app "block" [(Term.app "yield" [(Term.sym "item")])]), (Term.app "block" [])])])]);
       Out.fall [eff0]
@@ -90,16 +90,16 @@ def ListOfDicts_unique (truth : Term → Bool) : Out :=
     Out.ret [] (Term.sym "None")
   else
     if (!truth (Term.sym "keys")) then
-      let keys' : Term := (Term.app "set" [(Term.app "getitem" [(Term.sym "self"), (Term.int (0 : Int))])]);
-      let eff0 : Term := (Term.app "for" [(Term.sym "item"), (Term.sym "self"), (Term.app "block" [(Term.app "assign" [(Term.sym "keys"), (Term.app "BitAnd=" [(Term.sym "keys"), (Term.app "set" [(Term.sym "item")])])])]), (Term.app "init" [(Term.sym "keys"), keys'])]);
+      let keys' : Term := (Term.app "set()" [(Term.app "getitem" [(Term.sym "self"), (Term.int (0 : Int))])]);
+      let eff0 : Term := (Term.app "for" [(Term.sym "item"), (Term.sym "self"), (Term.app "block" [(Term.app "assign" [(Term.sym "keys"), (Term.app "BitAnd=" [(Term.sym "keys"), (Term.app "set()" [(Term.sym "item")])])])]), (Term.app "init" [(Term.sym "keys"), keys'])]);
       let keys' : Term := (Term.app "value-after-loop" [(Term.sym "keys"), eff0]);
-      let found_ids' : Term := (Term.app "set" []);
+      let found_ids' : Term := (Term.app "set()" []);
       let extract' : Term := (Term.app "operator.itemgetter" [(Term.app "*" [keys'])]);
       let eff1 : Term := (Term.app "for" [(Term.sym "item"), (Term.sym "self"), (Term.app "block" [(Term.app "assign" [(Term.sym "id"), (Term.app "call" [extract', (Term.sym "item")])]), (Term.app "if" [(Term.app "NotIn" [(Term.sym "id"), found_ids']), (Term.app "block" [(Term.app ".add" [found_ids', (Term.sym "id")]), (Term.app "yield" [(Term.sym "item")])]), (Term.app "block" [])])])]);
       let id' : Term := (Term.app "value-after-loop" [(Term.sym "id"), eff1]);
       Out.fall [eff0, eff1]
     else
-      let found_ids' : Term := (Term.app "set" []);
+      let found_ids' : Term := (Term.app "set()" []);
       let extract' : Term := (Term.app "operator.itemgetter" [(Term.app "*" [(Term.sym "keys")])]);
       let eff0 : Term := (Term.app "for" [(Term.sym "item"), (Term.sym "self"), (Term.app "block" [(Term.app "assign" [(Term.sym "id"), (Term.app "call" [extract', (Term.sym "item")])]), (Term.app "if" [(Term.app "NotIn" [(Term.sym "id"), found_ids']), (Term.app "block" [(Term.app ".add" [found_ids', (Term.sym "id")]), (Term.app "yield" [(Term.sym "item")])]), (Term.app "block" [])])])]);
       let id' : Term := (Term.app "value-after-loop" [(Term.sym "id"), eff0]);
@@ -114,7 +114,7 @@ def ListOfDicts_unique_signature : List String := ["self", "*keys"]
 /-- dataiter/list_of_dicts.py: ListOfDicts.sort (sha256 of the function source: ff89d8a4564797f0) -/
 def ListOfDicts_sort (truth : Term → Bool) : Out :=
   let data' : Term := (Term.sym "self");
-  let eff0 : Term := (Term.app "for" [(Term.app "tuple" [(Term.sym "key"), (Term.sym "dir")]), (Term.app "getitem" [(Term.app "list" [(Term.app ".items" [(Term.sym "key_dir_pairs")])]), (Term.app "slice" [(Term.sym "None"), (Term.sym "None"), (Term.int (-(1 : Int)))])]), (Term.app "block" [(Term.app "if" [(Term.app "NotIn" [(Term.sym "dir"), (Term.app "list" [(Term.int (1 : Int)), (Term.int (-(1 : Int)))])]), (Term.app "block" [(Term.app "raise" [(Term.sym "ValueError")])]), (Term.app "block" [])]), (Term.app "def" [(Term.sym "sort_key"), (Term.app "params" [(Term.sym "item")]), (Term.app "block" [(Term.app "return" [(Term.app "ifexp" [(Term.app "Gt" [(Term.sym "dir"), (Term.int (0 : Int))]), (Term.app "tuple" [(Term.app "Is" [(Term.app "getitem" [(Term.sym "item"), (Term.sym "key")]), (Term.sym "None")]), (Term.app "getitem" [(Term.sym "item"), (Term.sym "key")])]), (Term.app "tuple" [(Term.app "IsNot" [(Term.app "getitem" [(Term.sym "item"), (Term.sym "key")]), (Term.sym "None")]), (Term.app "getitem" [(Term.sym "item"), (Term.sym "key")])])])])])]), (Term.app "assign" [(Term.sym "data"), (Term.app "sorted" [(Term.sym "data"), (Term.app "=key" [(Term.sym "sort_key")]), (Term.app "=reverse" [(Term.app "Lt" [(Term.sym "dir"), (Term.int (0 : Int))])])])])]), (Term.app "init" [(Term.sym "data"), data'])]);
+  let eff0 : Term := (Term.app "for" [(Term.app "tuple" [(Term.sym "key"), (Term.sym "dir")]), (Term.app "getitem" [(Term.app "list()" [(Term.app ".items" [(Term.sym "key_dir_pairs")])]), (Term.app "slice" [(Term.sym "None"), (Term.sym "None"), (Term.int (-(1 : Int)))])]), (Term.app "block" [(Term.app "if" [(Term.app "NotIn" [(Term.sym "dir"), (Term.app "list" [(Term.int (1 : Int)), (Term.int (-(1 : Int)))])]), (Term.app "block" [(Term.app "raise" [(Term.sym "ValueError")])]), (Term.app "block" [])]), (Term.app "def" [(Term.sym "sort_key"), (Term.app "params" [(Term.sym "item")]), (Term.app "block" [(Term.app "return" [(Term.app "ifexp" [(Term.app "Gt" [(Term.sym "dir"), (Term.int (0 : Int))]), (Term.app "tuple" [(Term.app "Is" [(Term.app "getitem" [(Term.sym "item"), (Term.sym "key")]), (Term.sym "None")]), (Term.app "getitem" [(Term.sym "item"), (Term.sym "key")])]), (Term.app "tuple" [(Term.app "IsNot" [(Term.app "getitem" [(Term.sym "item"), (Term.sym "key")]), (Term.sym "None")]), (Term.app "getitem" [(Term.sym "item"), (Term.sym "key")])])])])])]), (Term.app "assign" [(Term.sym "data"), (Term.app "sorted" [(Term.sym "data"), (Term.app "=key" [(Term.sym "sort_key")]), (Term.app "=reverse" [(Term.app "Lt" [(Term.sym "dir"), (Term.int (0 : Int))])])])])]), (Term.app "init" [(Term.sym "data"), data'])]);
   let data' : Term := (Term.app "value-after-loop" [(Term.sym "data"), eff0]);
   Out.ret [eff0] (Term.app "._new" [(Term.sym "self"), data'])
 
@@ -237,12 +237,12 @@ def ListOfDicts_extend_signature : List String := ["self", "other"]
 def ListOfDicts_insert (truth : Term → Bool) : Out :=
   if (!truth (Term.app "isinstance" [(Term.sym "item"), (Term.sym "AttributeDict")])) then
     let item' : Term := (Term.app "AttributeDict" [(Term.sym "item")]);
-    let items' : Term := (Term.app "list" [(Term.sym "self")]);
+    let items' : Term := (Term.app "list()" [(Term.sym "self")]);
     let eff0 : Term := (Term.app ".insert" [items', (Term.sym "index"), item']);
     let eff1 : Term := (Term.app "yield-from" [items']);
     Out.fall [eff0, eff1]
   else
-    let items' : Term := (Term.app "list" [(Term.sym "self")]);
+    let items' : Term := (Term.app "list()" [(Term.sym "self")]);
     let eff0 : Term := (Term.app ".insert" [items', (Term.sym "index"), (Term.sym "item")]);
     let eff1 : Term := (Term.app "yield-from" [items']);
     Out.fall [eff0, eff1]
